@@ -652,6 +652,12 @@ class ClientSSM(SSM):
     def segmented_confirmation(self, apdu):
         if _debug: ClientSSM._debug("segmented_confirmation %r", apdu)
 
+        # a segment ack can only be a delayed or duplicated ack of the
+        # segmented request, which has already been completed
+        if (apdu.apduType == SegmentAckPDU.pduType):
+            if _debug: ClientSSM._debug("    - late segment ack, ignored")
+            return
+
         # the only messages we should be getting are complex acks
         if (apdu.apduType != ComplexAckPDU.pduType):
             if _debug: ClientSSM._debug("    - complex ack required")
